@@ -45,6 +45,30 @@
 (* containers it mentions, so the expected results follow from the same     *)
 (* model functions (ReNames below).                                         *)
 (*                                                                         *)
+(* NUMERIC-LOOKING STRING KEYS (round 3): dicts and sets over "nstr", 24    *)
+(* strings that READ as numbers - "1" "01" "1.0" " 1" "1 " "1e0" "0x1" "+1"  *)
+(* (all the number one), "10" "1e1" "1E1" "0xA" "0xa" "10.0" (ten), "0x10"   *)
+(* "16", "-1" "-1.0", "0" "-0" "0.0", "0.5" ".5", and the near miss "1a".    *)
+(* For the plain model a string key is the key its TEXT says: two strings    *)
+(* that differ in one character are two keys, whatever number they denote.   *)
+(* "nstr": <= 1 key per dict / set (every key absent and present, ALL 24     *)
+(* asked after every transition); "nstr2": the six keys "1" "01" "1.0" "10"  *)
+(* "1e1" " 1" with <= 2 keys per dict and <= 3 per set (len, overwrite,      *)
+(* remove next to a numerically equal key). Beside them the number keys      *)
+(* themselves: "float" (0.0, 1.0, 0.5) and "zint" (0, -1) as dict keys and   *)
+(* set elements, "estr" ("", "0").                                           *)
+(*                                                                           *)
+(* ELEMENTS / VALUES THAT A RUNTIME MIGHT TAKE FOR "NOTHING" (round 3):      *)
+(* lists of bool (false!), float (0.0), "estr" ("" and "0"), unit "()",      *)
+(* lists ([]), Maybe (None as an ELEMENT: get returns Just None) and "zint"  *)
+(* (0, -1); dicts whose VALUES are of these types ("vbool", "vunit", "vlst", *)
+(* "vmayb" with string keys; "float", "estr", "zint" map to 0.0 / "" / 0).   *)
+(* In the plain model an element is present because it was put there, not    *)
+(* because of what it is: get / last / pop / find / contains / dict.get /     *)
+(* contains_key answer Just false, Just None, Just [] ... like Just 1.       *)
+(* Their function menu is generic (FalsyTypes below): x == V1, x != V1,      *)
+(* never, x -> (x, x), a count of V1 folded in order; V1 = first value.      *)
+(*                                                                           *)
 (* This module models ONE container per behaviour. Value semantics ACROSS  *)
 (* containers (a container made by map / filter / from_list / ... is       *)
 (* independent of what it was made from) is module SyltShare, which        *)
@@ -54,9 +78,16 @@ EXTENDS SyltValues, Json, IOUtils
 
 EnvInt(name, dflt) == IF name \in DOMAIN IOEnv THEN atoi(IOEnv[name]) ELSE dflt
 MaxLen == EnvInt("MAXLEN", 3)        \* longest list / most keys / most set elements
+NstrSet == EnvInt("NSTR_SET", 1)     \* most elements of a set over the 24 numeric-looking strings (thorough: 2)
 \* most keys of a dict / elements of a set, longest from_list literal of an instantiation
-KeyMax(k, t) == IF t = "wstr" THEN (IF k = "dict" THEN 1 ELSE 2) ELSE MaxLen
-LitMax(k, t) == IF t = "wstr" THEN (IF k = "dict" THEN 1 ELSE 2) ELSE (IF k = "dict" THEN 2 ELSE 3)
+KeyMax(k, t) == IF t = "wstr" THEN (IF k = "dict" THEN 1 ELSE 2)
+                ELSE IF t = "nstr" THEN (IF k = "dict" THEN 1 ELSE NstrSet)
+                ELSE IF t = "nstr2" THEN (IF k = "dict" THEN 2 ELSE 3)
+                ELSE MaxLen
+LitMax(k, t) == IF t = "wstr" THEN (IF k = "dict" THEN 1 ELSE 2)
+                ELSE IF t = "nstr" THEN (IF k = "dict" THEN 1 ELSE NstrSet)
+                ELSE IF t = "nstr2" THEN 2
+                ELSE (IF k = "dict" THEN 2 ELSE 3)
 Big    == EnvInt("BIG", 0) = 1       \* four values per type instead of three (simulation tier)
 
 Just(v) == VariantV("Just", v)
@@ -68,7 +99,21 @@ P(a, b) == TupleV(<<a, b>>)
 Op(name, args) == [op |-> name, a |-> args]
 
 Types == {"int", "str", "pair", "spair"}
-KeyTypes == Types \cup {"wstr"}        \* dicts and sets only
+\* element / value types whose values a runtime might take for "nothing" (V1, the first value, is the suspicious one)
+FalsyTypes == {"bool", "float", "estr", "unit", "lst", "mayb", "zint"}
+ListTypes == Types \cup FalsyTypes
+\* numeric-looking string keys; number keys and the empty string (types with an order, so they can be keys)
+NumKeyTypes == {"nstr", "nstr2", "float", "estr", "zint"}
+KeyTypes == Types \cup {"wstr"} \cup NumKeyTypes        \* dicts and sets
+\* dicts only: string keys, VALUES of a type that cannot be a key (no order)
+ValueTypes == {"vbool", "vunit", "vlst", "vmayb"}
+DictTypes == KeyTypes \cup ValueTypes
+
+\* strings that read as numbers, grouped by the number they denote; as KEYS they are 24 different keys
+NumStrSeq == <<StrV("1"), StrV("01"), StrV("1.0"), StrV(" 1"), StrV("1 "), StrV("1e0"), StrV("0x1"), StrV("+1"),
+               StrV("10"), StrV("1e1"), StrV("1E1"), StrV("0xA"), StrV("0xa"), StrV("10.0"),
+               StrV("0x10"), StrV("16"), StrV("-1"), StrV("-1.0"), StrV("0"), StrV("-0"), StrV("0.0"),
+               StrV("0.5"), StrV(".5"), StrV("1a")>>
 
 \* the values of an instantiation, in a fixed order (also the key universe of dicts)
 ValSeq(ty) ==
@@ -78,6 +123,16 @@ ValSeq(ty) ==
                        \o (IF Big THEN <<P(IntV(0), IntV(0))>> ELSE <<>>)
     [] ty = "spair" -> <<P(StrV("a, b"), StrV("c")), P(StrV("a"), StrV("b, c")), P(StrV("a"), StrV("b"))>>
                        \o (IF Big THEN <<P(StrV("b"), StrV("a"))>> ELSE <<>>)
+    [] ty = "bool"  -> <<BoolV(FALSE), BoolV(TRUE)>>
+    [] ty = "float" -> <<FloatV(0, 0), FloatV(1, 0), FloatV(1, 1)>>            \* 0.0, 1.0, 0.5
+    [] ty = "estr"  -> <<StrV(""), StrV("0")>>
+    [] ty = "unit"  -> <<TupleV(<<>>)>>
+    [] ty = "lst"   -> <<ListL(<<>>), ListL(<<IntV(0)>>)>>
+    [] ty = "mayb"  -> <<None, Just(IntV(0))>>
+    [] ty = "zint"  -> <<IntV(0), IntV(0 - 1)>>
+    [] ty \in ValueTypes -> <<StrV("a"), StrV("b")>>
+    [] ty = "nstr"  -> NumStrSeq
+    [] ty = "nstr2" -> <<StrV("1"), StrV("01"), StrV("1.0"), StrV("10"), StrV("1e1"), StrV(" 1")>>
     [] ty = "wstr"  -> <<StrV("_type"), StrV("__index"), StrV("__eq"), StrV("__tostring"), StrV("__newindex"), StrV("__add"),
                          StrV("n"), StrV("1"), StrV("nil"), StrV("true"), StrV(""), StrV("(1, 2)")>>
 Vals(ty) == {ValSeq(ty)[i] : i \in 1..Len(ValSeq(ty))}
@@ -89,6 +144,14 @@ DValSeq(ty) ==
     [] ty = "pair"  -> <<P(IntV(2), IntV(3)), P(IntV(3), IntV(2))>>
     [] ty = "spair" -> <<IntV(7), IntV(8)>>
     [] ty = "wstr"  -> <<IntV(7), IntV(8)>>
+    [] ty \in {"nstr", "nstr2"} -> <<IntV(7), IntV(8)>>
+    [] ty = "float" -> <<FloatV(0, 0), FloatV(5, 1)>>                          \* 0.0, 2.5
+    [] ty = "estr"  -> <<StrV(""), StrV("x")>>
+    [] ty = "zint"  -> <<IntV(0), IntV(0 - 1)>>
+    [] ty = "vbool" -> ValSeq("bool")
+    [] ty = "vunit" -> <<TupleV(<<>>)>>
+    [] ty = "vlst"  -> ValSeq("lst")
+    [] ty = "vmayb" -> ValSeq("mayb")
 DVals(ty) == {DValSeq(ty)[i] : i \in 1..Len(DValSeq(ty))}
 
 \* the members of S in the fixed order
@@ -103,14 +166,27 @@ MapFns(ty) == CASE ty = "int"   -> {"inc", "mkpair"}
                 [] ty = "str"   -> {"dup", "tag"}
                 [] ty = "pair"  -> {"swap", "fst"}
                 [] ty = "spair" -> {"swap", "join"}
+                [] ty \in FalsyTypes -> {"mkpair"}
 Preds(ty)  == CASE ty = "int"   -> {"pos", "ne1", "gt5"}
                 [] ty = "str"   -> {"isab", "nea", "iszz"}
                 [] ty = "pair"  -> {"fst1", "ne11", "fstgt5"}
                 [] ty = "spair" -> {"fsta", "sndc", "fstzz"}
+                [] ty \in FalsyTypes -> {"isv1", "nev1", "never"}
 FoldFns(ty) == CASE ty = "int"  -> {"poly3"}
                 [] ty = "str"   -> {"cat"}
                 [] ty = "pair"  -> {"poly5"}
                 [] ty = "spair" -> {"catall"}
+                [] ty \in FalsyTypes -> {"cntv1"}
+\* the generic menu of FalsyTypes speaks about V1, the first value of the instantiation: the "zero" of the type of v
+\* (false, 0.0, "", (), [], None, 0)
+ZeroOf(v) == CASE v.k = "bool"    -> BoolV(FALSE)
+               [] v.k = "float"   -> FloatV(0, 0)
+               [] v.k = "str"     -> StrV("")
+               [] v.k = "tuple"   -> TupleV(<<>>)
+               [] v.k = "list"    -> ListL(<<>>)
+               [] v.k = "variant" -> None
+               [] v.k = "int"     -> IntV(0)
+ASSUME \A t \in FalsyTypes : \A i \in 1..Len(ValSeq(t)) : ZeroOf(ValSeq(t)[i]) = ValSeq(t)[1]
 
 (* Re-entrant callbacks (ty = "int"): they mention the list being traversed *)
 (* (parameter c of ApplyFnC / ApplyPredC) and three other containers that  *)
@@ -159,6 +235,9 @@ ApplyPredC(p, v, c) ==
     [] p = "fsta"   -> v.es[1].v = "a"
     [] p = "sndc"   -> v.es[2].v = "c"
     [] p = "fstzz"  -> v.es[1].v = "zz"
+    [] p = "isv1"   -> v = ZeroOf(v)
+    [] p = "nev1"   -> v # ZeroOf(v)
+    [] p = "never"  -> FALSE
     [] p = "auxget1"  -> v.v >= 0 /\ v.v < Len(AuxL) /\ AuxL[v.v + 1] = IntV(1)     \* get(aux, x) == Just 1
     [] p = "selfget0" -> c # <<>> /\ c[1] = v                                        \* get(c, 0) == Just x
     [] p = "indict"   -> v \in DOMAIN AuxD                                           \* dict.contains_key(auxd, x)
@@ -166,12 +245,13 @@ ApplyPredC(p, v, c) ==
 ApplyPred(p, v) == ApplyPredC(p, v, <<>>)
 
 \* fold(l, init, f) calls f(item, acc)
-FoldInit(f) == CASE f \in {"poly3", "poly5", "getacc"} -> IntV(0) [] OTHER -> StrV("")
+FoldInit(f) == CASE f \in {"poly3", "poly5", "getacc", "cntv1"} -> IntV(0) [] OTHER -> StrV("")
 FoldStep(f, v, acc) ==
   CASE f = "poly3"  -> IntV(acc.v * 3 + v.v)
     [] f = "poly5"  -> IntV(acc.v * 5 + v.es[1].v * 2 + v.es[2].v)
     [] f = "cat"    -> StrV(acc.v \o v.v)
     [] f = "catall" -> StrV(acc.v \o v.es[1].v \o v.es[2].v)
+    [] f = "cntv1"  -> IntV(acc.v * 2 + (IF v = ZeroOf(v) THEN 1 ELSE 0))                 \* a * 2 + (if v == V1 do 1 else 0 end)
     [] f = "getacc" -> IntV(acc.v * 3 + (LET i == v.v IN IF i >= 0 /\ i < Len(AuxL) THEN AuxL[i + 1].v ELSE 5))   \* a * 3 + orDefault(get(aux, v), 5)
 
 ---------------------------------------------------------------------------
@@ -248,7 +328,7 @@ Kinds == IF "KINDS" \in DOMAIN IOEnv /\ IOEnv.KINDS = "containers" THEN {"list",
 
 Init ==
   /\ kind \in Kinds
-  /\ ty \in (IF kind = "helper" THEN {"num"} ELSE IF kind = "list" THEN Types ELSE KeyTypes)
+  /\ ty \in (IF kind = "helper" THEN {"num"} ELSE IF kind = "list" THEN ListTypes ELSE IF kind = "dict" THEN DictTypes ELSE KeyTypes)
   /\ made = FALSE
   /\ st = (IF kind = "set" THEN {} ELSE <<>>)
   /\ hist = <<>>
@@ -273,7 +353,8 @@ ArgClass(o) ==
 
 Emit(t, o, r, s2) ==
   PrintT(<<"REPLAY", ToJson([ty |-> t, kind |-> kind, hist |-> hist, pre |-> ToString(<<made, st>>), op |-> o,
-                             arg |-> ArgClass(o), res |-> r, obs |-> Observe(kind, ty, s2), aux |-> AuxRec])>>)
+                             arg |-> ArgClass(o), res |-> r, obs |-> Observe(kind, ty, s2), aux |-> AuxRec,
+                             v1 |-> IF kind = "helper" THEN NilV ELSE ValSeq(ty)[1]])>>)
 
 Step(o, r, s2) ==
   /\ st' = s2
@@ -371,9 +452,9 @@ HDiv   == kind = "helper" /\ \E a \in DivA, b \in DivB :
 HFloor == kind = "helper" /\ \E nk \in NumKinds : \E a \in Nums(nk) :
              HStep(nk, Op("floor", <<a>>), IF a.k = "int" THEN a ELSE IntV(a.n \div Pow2(a.d)))
 
-MaybeTypes == {"int", "str", "pair"}
+MaybeTypes == {"int", "str", "pair", "bool", "estr", "zint"}
 Maybes(t) == {None, Just(ValSeq(t)[1]), Just(ValSeq(t)[2])}
-HOrDefault == kind = "helper" /\ \E t \in MaybeTypes : \E m \in Maybes(t), d \in {ValSeq(t)[1], ValSeq(t)[3]} :
+HOrDefault == kind = "helper" /\ \E t \in MaybeTypes : \E m \in Maybes(t), d \in {ValSeq(t)[1], ValSeq(t)[Len(ValSeq(t))]} :
                  HStep(t, Op("orDefault", <<m, d>>), IF m.tag = "Just" THEN m.val ELSE d)
 HIsJust == kind = "helper" /\ \E t \in MaybeTypes : \E m \in Maybes(t) : HStep(t, Op("isJust", <<m>>), BoolV(m.tag = "Just"))
 HIsNone == kind = "helper" /\ \E t \in MaybeTypes : \E m \in Maybes(t) : HStep(t, Op("isNone", <<m>>), BoolV(m.tag = "None"))
